@@ -20,7 +20,11 @@ def load(data):
 def roundtrip_event(obj, spec, w=False):
     orig = projection.project_any(obj, spec)       # the public state BEFORE saving
     projection.pop_overflows()                     # (generated inputs stay inside the documented widths)
-    data = obj.read()
+    try:
+        data = obj.read()
+    except Exception as e:                         # an object that cannot be written: an outcome, not a harness failure
+        return {"op": "roundtrip", "w": bool(w), "orig": orig, "chunks": [], "outcome": "save-raised:" + type(e).__name__,
+                "back": {"kind": "none"}, "overflow": []}
     out, q = load(data)
     back = projection.project_any(q, spec, True) if q is not None else {"kind": "none"}
     return {"op": "roundtrip", "w": bool(w), "orig": orig, "chunks": tlv.to_json_nested(data),
@@ -38,8 +42,13 @@ def edit_in_place(obj, spec, rnd, nedits=6):
         bykind.setdefault(lf[0], []).append(lf)
     kinds = sorted(bykind, key=lambda k: (not k.startswith("payload."), rnd.random()))
     done = []
-    for k in kinds[:nedits]:
-        kind, pth, fn, newv = rnd.choice(bykind[k])
+    picks = [rnd.choice(bykind[k]) for k in kinds[:nedits]]
+    emb = [lf for lf in leaves if "payload" in lf[1] and "project" in lf[1]]       # leaves inside an embedded project
+    smp = [lf for lf in leaves if lf[0].startswith("payload.sample-")]
+    for pool in (emb, smp):
+        if pool:
+            picks.append(rnd.choice(pool))
+    for kind, pth, fn, newv in picks:
         try:
             fn(obj)
             done.append(kind)
@@ -61,16 +70,24 @@ def _mtype_at(obj, path):
     return ""
 
 
-def chain_events(obj, spec, rnd, w=False, nedits=6):
+def chain_events(obj, spec, rnd, w=False, nedits=6, other=None):
     """History on ONE object and its reloaded copy: save; edit in place; save again (caches / memoised images must
     follow the edits); load the second file, edit the loaded copy, save (nothing of the file may be replayed).
     Each save is judged as its own round trip."""
     evs = [roundtrip_event(obj, spec, w)]
     kinds = edit_in_place(obj, spec, rnd, nedits)
     evs.append(roundtrip_event(obj, spec, w))
-    out, q = load(obj.read())
+    try:
+        out, q = load(obj.read())
+    except Exception:
+        q = None
     if q is not None:
         kinds += edit_in_place(q, spec, rnd, nedits)
+        if other is not None:       # an unrelated object is loaded / built / saved in between
+            try:
+                other()
+            except Exception:
+                pass
         evs.append(roundtrip_event(q, spec, False))
     return evs, kinds
 
